@@ -69,6 +69,14 @@ type mutation struct {
 // numbers changed, bools flipped, pointers nil<->zero value, zero->non-zero,
 // slices shortened/extended, instants shifted, zone presentation changed.
 // skip(path) prunes sub-trees (used to avoid following back-references).
+// mutSep is the separator byte of the current case for the "str-append-sep" / "str-prepend-sep" mutations: a hash input
+// that glues adjacent strings together with some separator collides for strings that carry it at the boundary
+// ("a"+sep | "b"  vs  "a" | sep+"b"). The case runner sets it; children run their cases one after the other.
+var mutSep = "\x1f"
+
+// mutSeps are the separators rotated over the cases.
+var mutSeps = []string{"\x1f", "\x00", "\x1e", "|", ",", ":", ";", "/", "\n", "\t", " ", "-", "_", "#", "\xff", "0", "é"}
+
 func mutateAll[T any](root *T, otherZone *time.Location, skip func(path string) bool) ([]*T, []mutation) {
 	var outs []*T
 	var muts []mutation
@@ -116,7 +124,7 @@ func mutateAll[T any](root *T, otherZone *time.Location, skip func(path string) 
 				walk(v.Field(i), path+"."+f.Name, depth+1)
 			}
 		case reflect.String:
-			points = append(points, point{path, "str-append"}, point{path, "str-empty-toggle"})
+			points = append(points, point{path, "str-append"}, point{path, "str-empty-toggle"}, point{path, "str-append-sep"}, point{path, "str-prepend-sep"})
 		case reflect.Bool:
 			points = append(points, point{path, "flip"})
 		case reflect.Int, reflect.Int8, reflect.Int16, reflect.Int32, reflect.Int64,
@@ -211,6 +219,12 @@ func applyMutation(v reflect.Value, path, target, kind string, otherZone *time.L
 			return true
 		case "str-append":
 			v.SetString(v.String() + "a")
+			return true
+		case "str-append-sep":
+			v.SetString(v.String() + mutSep)
+			return true
+		case "str-prepend-sep":
+			v.SetString(mutSep + v.String())
 			return true
 		case "str-empty-toggle":
 			if v.String() == "" {
